@@ -162,12 +162,32 @@ class Shims:
                 self._result = None
                 self._exc = None
                 self._cbs = []
+                self._cancelled = False
+                self._executor = None
 
             def done(self):
                 return self._done
 
             def cancelled(self):
+                return self._cancelled
+
+            def cancel(self):
+                # concurrent.futures.Future.cancel: only a work item that no worker has picked up yet
+                if self._cancelled:
+                    return True
+                if self._done or self._executor is None:
+                    return False
+                for item in self._executor.queue:
+                    if item[0] is self:
+                        self._executor.queue.remove(item)
+                        self._cancel_now()
+                        return True
                 return False
+
+            def _cancel_now(self):
+                import concurrent.futures as _cf
+                self._cancelled = True
+                self._finish(exc=_cf.CancelledError())
 
             def result(self, timeout=None):
                 s.point('future-result')
@@ -229,6 +249,7 @@ class Shims:
                 if self.shut:
                     raise RuntimeError('cannot schedule new futures after shutdown')
                 f = CoopFuture()
+                f._executor = self
                 for _o in shims.exec_observers:
                     _o(self.name, 'submit', fn)
                 self.queue.append((f, fn, args, kwargs))
@@ -271,8 +292,16 @@ class Shims:
                         f._finish(result=r)
                     s.point(('task-finished', self.name))
 
-            def shutdown(self, wait=True, **kw):
+            def shutdown(self, wait=True, cancel_futures=False, **kw):
                 self.shut = True
+                if cancel_futures:
+                    # ThreadPoolExecutor.shutdown(cancel_futures=True): every work item still queued is
+                    # dropped and its future cancelled (its done callbacks run in this thread)
+                    while self.queue:
+                        item = self.queue.pop(0)
+                        for _o in shims.exec_observers:
+                            _o(self.name, 'dropped', item[1])
+                        item[0]._cancel_now()
                 s.point(('executor-shutdown', self.name))
                 if wait:
                     s.block_until(lambda: all(w.finished for w in self.workers), ('executor-join', self.name))
